@@ -65,6 +65,7 @@ type c12World struct {
 	// mode 0: issue the request, run to quiescence, update the model (sequential histories);
 	// mode 1: issue the request only (one of two concurrent clients; the model copy is thrown away);
 	// mode 2: update the model only and remember the expected deliveries (reference for one order of a pair)
+	login      [3]string // current login of each slot's account ("" = the initial s<k>); a rename changes it
 	mode       int
 	lastExpect []c12Delivery
 	lastKnown  bool
@@ -72,7 +73,7 @@ type c12World struct {
 
 // cloneModel copies the reference state (the clients are shared: a clone in mode 2 never uses them).
 func (x *c12World) cloneModel(mode int) *c12World {
-	y := &c12World{wd: x.wd, cl: x.cl, on: x.on, ids: x.ids, nconn: x.nconn, banned: map[string]bool{}, deaf: x.deaf, canRead: x.canRead, mode: mode}
+	y := &c12World{wd: x.wd, cl: x.cl, on: x.on, ids: x.ids, nconn: x.nconn, banned: map[string]bool{}, deaf: x.deaf, canRead: x.canRead, login: x.login, mode: mode}
 	for k, v := range x.banned {
 		y.banned[k] = v
 	}
@@ -84,6 +85,13 @@ func (x *c12World) cloneModel(mode int) *c12World {
 		y.chats = append(y.chats, n)
 	}
 	return y
+}
+
+func (x *c12World) loginOf(k int) string {
+	if x.login[k] != "" {
+		return x.login[k]
+	}
+	return fmt.Sprintf("s%d", k)
 }
 
 func (x *c12World) fail(clause, detail string) {
@@ -163,7 +171,7 @@ func (x *c12World) apply(op string, check bool) bool {
 		}
 		return x.cl[k].Req(typ, fs...)
 	}
-	if x.deaf[k] && p[0] != "off" && p[0] != "edit" {
+	if x.deaf[k] && p[0] != "off" && !strings.HasPrefix(p[0], "edit") {
 		return false // a client that does not read cannot see replies: it issues nothing further
 	}
 	switch p[0] {
@@ -175,7 +183,7 @@ func (x *c12World) apply(op string, check bool) bool {
 		before := x.wd.UserList(x.probe())
 		x.cl[k] = x.wd.Dial(fmt.Sprintf("10.0.%d.%d:%d", x.nconn, k+1, 4000+k))
 		x.cl[k].Handshake()
-		x.cl[k].Login123(fmt.Sprintf("s%d", k), "p", c12Names[k], 1)
+		x.cl[k].Login123(x.loginOf(k), "p", c12Names[k], 1)
 		settle()
 		x.on[k] = true
 		x.ids[k] = 0
@@ -189,7 +197,7 @@ func (x *c12World) apply(op string, check bool) bool {
 			}
 		}
 		expectKnown = false
-	case "edit":
+	case "edit", "editb", "editr":
 		// an administrator toggles the read-chat privilege of the slot's account while its session is live
 		acc := world.Bits(ref.PSendChat, ref.POpenChat, ref.PAnyName)
 		if !c12CanSend[k] {
@@ -199,7 +207,17 @@ func (x *c12World) apply(op string, check bool) bool {
 		if x.canRead[k] {
 			acc[ref.PReadChat/8] |= 0x80 >> uint(ref.PReadChat%8)
 		}
-		id := x.probe().Req(ref.TSetUser, ref.F(ref.FUserLogin, obf(fmt.Sprintf("s%d", k))), ref.FS(ref.FUserName, c12Names[k]), ref.F(ref.FUserPassword, []byte{0}), ref.F(ref.FUserAccess, acc[:]))
+		var id uint32
+		switch p[0] {
+		case "editb": // the multi-account editor
+			id = x.probe().Req(ref.TUpdateUser, ref.F(ref.FData, subFields(ref.F(ref.FUserLogin, obf(x.loginOf(k))), ref.FS(ref.FUserName, c12Names[k]), ref.F(ref.FUserPassword, []byte{0}), ref.F(ref.FUserAccess, acc[:]))))
+		case "editr": // renamed and edited in one entry of the multi-account editor
+			to := x.loginOf(k) + "r"
+			id = x.probe().Req(ref.TUpdateUser, ref.F(ref.FData, subFields(ref.F(ref.FData, obf(x.loginOf(k))), ref.F(ref.FUserLogin, obf(to)), ref.FS(ref.FUserName, c12Names[k]), ref.F(ref.FUserPassword, []byte{0}), ref.F(ref.FUserAccess, acc[:]))))
+			x.login[k] = to
+		default:
+			id = x.probe().Req(ref.TSetUser, ref.F(ref.FUserLogin, obf(x.loginOf(k))), ref.FS(ref.FUserName, c12Names[k]), ref.F(ref.FUserPassword, []byte{0}), ref.F(ref.FUserAccess, acc[:]))
+		}
 		settle()
 		if r := x.probe().Reply(id); r == nil || r.Err != 0 {
 			x.fail("edit/set-user-refused", fmt.Sprint(r))
@@ -475,7 +493,7 @@ func (x *c12World) canon() string {
 		b = append(b, k)
 	}
 	sort.Strings(b)
-	fmt.Fprintf(&sb, " left%v deaf%v read%v", b, x.deaf, x.canRead)
+	fmt.Fprintf(&sb, " left%v deaf%v read%v login%v", b, x.deaf, x.canRead, x.login)
 	// the implementation's own chat table (for deduplication only): diverging states are expanded, not merged
 	for ci, c := range x.chats {
 		if len(c.id) == 4 {
@@ -688,21 +706,29 @@ func c12Pair(p c12PairParams) func() explore.SchedOutcome {
 			got = append(got, fmt.Sprintf("to%d: %s", d.to, clipMid(d.what)))
 		}
 		sort.Strings(got)
-		// The property fixes the audience of each notice as "the members of the chat"; while two operations
-		// overlap, a user who is joining or leaving is a member for one of them and not for the other, so:
-		// what both sequential orders deliver must be delivered (exactly as often), what only one of them
-		// delivers may be, and nothing else.
+		// The property fixes the audience of each notice as "the members of the chat" and adds that a user who
+		// left receives nothing further. While two operations overlap, a user who is joining or leaving is a
+		// member for one of them and not for the other, so the outcome need not be that of a sequential order —
+		// but what both orders deliver must be delivered (exactly as often), and everything that is delivered
+		// must be delivered by one and the same order (otherwise somebody was served as a member after leaving
+		// or before joining in every possible reading).
 		g, a, b := multiset(got), multiset(ab), multiset(ba)
 		var wrong []string
-		for k, n := range g {
-			if max := maxInt(a[k], b[k]); n > max {
-				wrong = append(wrong, fmt.Sprintf("%s delivered %d times, at most %d in either order", k, n, max))
-			}
-		}
 		for k := range a {
 			if min := minInt(a[k], b[k]); g[k] < min {
 				wrong = append(wrong, fmt.Sprintf("%s delivered %d times, %d in both orders", k, g[k], min))
 			}
+		}
+		within := func(o map[string]int) bool {
+			for k, n := range g {
+				if n > o[k] {
+					return false
+				}
+			}
+			return true
+		}
+		if !within(a) && !within(b) {
+			wrong = append(wrong, "the deliveries are not a subset of what either order delivers")
 		}
 		mem := x.members(true)
 		if mem != mab && mem != mba {
@@ -734,7 +760,7 @@ func c12Pair(p c12PairParams) func() explore.SchedOutcome {
 
 func c12Alphabet() []string {
 	return []string{
-		"on:0", "on:1", "on:2", "off:0", "off:1", "off:2", "deaf:0", "deaf:2", "edit:0", "edit:1",
+		"on:0", "on:1", "on:2", "off:0", "off:1", "off:2", "deaf:0", "deaf:2", "edit:0", "edit:1", "editb:0", "editr:0", "editr:2",
 		"pub:0:plain", "pub:0:emote", "pub:0:zero", "pub:0:long", "pub:0:edge", "pub:0:longemote", "pub:1:plain", "pub:1:long", "pub:2:plain",
 		"new:0:1", "new:0:2", "new:1:0", "new:1:2",
 		"inv:0:0:2", "inv:1:0:2", "inv:1:1:0",
